@@ -1115,6 +1115,9 @@ func checkC09(P *Prog, r *Result) {
 	// ... and what the node does itself after its children (its own tests, its own issues) must not look at the flags
 	// the child visited last left behind: which child that is, is the runtime's choice (C01's own-context-clean rule)
 	shareRule(P, r, checkC01, "C01/own-context-clean", nil, "C09/own-steps-after-any-last-child", 5)
+	// the path an issue is filed under is rendered from the node's path builder, not taken from something remembered
+	// from the sibling visited before (a memo validated by "same depth, same suffix") - C11's issue-complete rule, Path rows
+	shareRule(P, r, checkC11, "C11/issue-complete", func(o Obligation) bool { return strings.HasSuffix(o.Construct, "#Path") }, "C09/path-rendered-not-remembered", 3)
 	shareRule(P, r, checkC07, "C07/reinit", func(o Obligation) bool {
 		return strings.Contains(o.Construct, "#zog/internals.SchemaCtx.") || strings.Contains(o.Construct, "#zog/internals.ZogIssue.")
 	}, "C09/no-carried-pooled-state", 0)
@@ -1863,6 +1866,8 @@ func (P *Prog) checkReflectMapIteration(r *Result, rule string) {
 			})
 			if sorted {
 				r.ok(rule, c, P.ipos(in), "map iterated through "+name+"; the result is sorted in this function")
+			} else if ci.static.Name() == "MapRange" && mapRangeOnlyFeedsMap(in) {
+				r.ok(rule, c, P.ipos(in), "every entry visited goes into another map under its own key (SetMapIndex): the order of the visit leaves no trace")
 			} else {
 				r.bad(rule, c, P.ipos(in), "execution code iterates a map through "+name+" and uses the elements in iteration order: the result (element order, which index an issue is filed under) changes from run to run")
 			}
@@ -1939,4 +1944,92 @@ func rangeOverAtMostOneEntry(l rangeLoop) bool {
 		}
 	}
 	return false
+}
+
+// mapRangeOnlyFeedsMap: the iterator made by this MapRange call is used only through Next/Key/Value, and what Key
+// and Value return is used only as an argument of SetMapIndex - directly, or after one call whose result goes there
+// (a clone of the value). Copying a map into a map is the one use of an iteration whose order cannot be observed.
+func mapRangeOnlyFeedsMap(in ssa.Instruction) bool {
+	iter, ok := in.(ssa.Value)
+	if !ok {
+		return false
+	}
+	var feedsOnlyMap func(v ssa.Value, depth int) bool
+	feedsOnlyMap = func(v ssa.Value, depth int) bool {
+		refs := v.Referrers()
+		if refs == nil {
+			return false
+		}
+		n := 0
+		for _, rf := range *refs {
+			switch x := rf.(type) {
+			case *ssa.DebugRef:
+				continue
+			case *ssa.Store:
+				// spilled into a local for a method call on it
+				if al, isAl := x.Addr.(*ssa.Alloc); isAl && x.Val == v {
+					if !feedsOnlyMap(al, depth) {
+						return false
+					}
+					n++
+					continue
+				}
+				return false
+			case *ssa.UnOp:
+				if x.Op == token.MUL {
+					if !feedsOnlyMap(x, depth) {
+						return false
+					}
+					n++
+					continue
+				}
+				return false
+			case *ssa.Call:
+				ci := callOf(x)
+				if ci.static != nil && isPkgFunc(ci.static, "reflect") && ci.static.Name() == "SetMapIndex" {
+					n++
+					continue
+				}
+				if depth < 1 && ci.static != nil && !isPkgFunc(ci.static, "reflect") {
+					if !feedsOnlyMap(x, depth+1) {
+						return false
+					}
+					n++
+					continue
+				}
+				return false
+			default:
+				return false
+			}
+		}
+		return n > 0
+	}
+	refs := iter.Referrers()
+	if refs == nil {
+		return false
+	}
+	seen := false
+	for _, rf := range *refs {
+		switch x := rf.(type) {
+		case *ssa.DebugRef:
+		case *ssa.Call:
+			ci := callOf(x)
+			if ci.static == nil || !isPkgFunc(ci.static, "reflect") {
+				return false
+			}
+			switch ci.static.Name() {
+			case "Next":
+			case "Key", "Value":
+				if !feedsOnlyMap(x, 0) {
+					return false
+				}
+				seen = true
+			default:
+				return false
+			}
+		default:
+			return false
+		}
+	}
+	return seen
 }
